@@ -21,7 +21,7 @@ fn main() {
         run.finish();
     }
     run.assume("O1 (src/replay.rs) encodes the documented rules; index locations with explicit integral matrices; time-independent routing");
-    run.assume("required breaks, recharge stations and vicinity clustering are outside this check's workload (O1 replays them only partially)");
+    run.assume("required breaks and recharge stations are outside this check's workload; tours with stops produced by vicinity clustering (12 % of the problems use it) are replayed partially: capacity, tour size, compatibility, skills, groups, order and relations are judged as everywhere, time windows from the reported activity times; reachability and the distance / duration limits of such tours are NOT judged (commute legs are not in the stop sequence and the reported cumulative distances are not monotone there)");
     run.assume("relations are derived from sub-sequences of a feasible tour of the same problem (the documentation requires user relations to be consistent)");
     run.assume("tourSize is asserted on customer activities only (the documentation's wording); the solver is not seed-replayable, VERIF_SEED seeds the generators");
     run_end_to_end(&run, "C01");
@@ -30,6 +30,7 @@ fn main() {
     for rule in ["capacity", "time-window", "shift-start", "shift-end", "skills", "group", "compatibility", "order", "max-distance", "max-duration", "tour-size", "reload-window", "break-window"] {
         run.floor(&format!("rule '{rule}' evaluated"), run.observed("rule_evaluated", rule), 1);
     }
+    run.floor("problems with vicinity clustering", run.observed("features", "clustering"), run.by_tier(20, 100));
     run.floor("relation phase exercised", run.observed("phase", "relations"), 1);
     run.floor("tightened-limits phase exercised", run.observed("phase", "tightened"), run.by_tier(5, 40));
     for rule in ["capacity", "time-window", "max-distance", "max-duration", "tour-size", "shift-end"] {
